@@ -393,29 +393,47 @@ KINDS = {"ad": (HEADER04A, "check_ad", "ad_case"), "pg": (HEADER04, "check_pg", 
 
 
 # ----------------------------------------------------------------------------- generators
-def gen_signal(rng, lead, n, cplx):
-    """structured random data: noise, sinusoids, offsets, amplitude scales, correlated channels"""
+# amplitude scales: powers of two (exact in binary64 and cheap in Q), from pico-units to 1e12; the values
+# around 2^-27 straddle numpy's hidden absolute tolerance 1e-8 (np.allclose / isclose)
+AMP_EXP = [-60, -50, -40, -33, -30, -27, -26, -24, -20, -10, -3, 0, 0, 0, 0, 4, 10, 20, 30, 40]
+
+
+def gen_signal(rng, lead, n, cplx, amp_exp=None):
+    """structured random data: noise, noisy and pure sinusoids, integers, AR(1), exactly-zero-mean and
+    tiny-mean rows; a DC offset on about half of the other rows; correlated channels; the whole array
+    scaled by a power of two between 2^-60 and 2^40"""
     M = int(np.prod(lead)) if lead else 1
     t = np.arange(n)
 
     def one():
-        kind = rng.choice(["noise", "sine", "mix", "ints", "ar"])
+        kind = rng.choice(["noise", "sine", "tone", "ints", "ar", "zeromean", "tinymean", "noise"])
         if kind == "noise":
             v = np.array([rng.gauss(0, 1) for _ in range(n)])
         elif kind == "sine":
             v = np.sin(2 * np.pi * rng.randint(1, max(1, n // 2)) * t / n + rng.uniform(0, 6)) + 0.1 * np.array(
                 [rng.gauss(0, 1) for _ in range(n)])
-        elif kind == "mix":
-            v = np.array([rng.gauss(0, 1) for _ in range(n)]) + rng.uniform(-3, 3)
+        elif kind == "tone":
+            # noise-free bin-centred tone: most bins lie > 150 dB below the peak (adaptive_weights' min_pwr branch)
+            v = np.cos(2 * np.pi * rng.randint(1, max(1, n // 2 - 1)) * t / n)
         elif kind == "ints":
             v = np.array([float(rng.randint(-5, 5)) for _ in range(n)])
             if not v.any():
                 v[0] = 1.0
+        elif kind in ("zeromean", "tinymean"):
+            v = np.array([float(rng.randint(-6, 6)) for _ in range(n)])
+            v[-1] -= v.sum()                      # the row sums to exactly 0 (small integers: exact)
+            if not v.any():
+                v[0], v[1] = 1.0, -1.0
+            if kind == "tinymean":
+                v = v + 2.0 ** -rng.choice([20, 27, 30, 36])      # mean = 2^-k exactly
+            return v
         else:
             e = [rng.gauss(0, 1) for _ in range(n)]
             v = np.zeros(n)
             for i in range(n):
                 v[i] = 0.8 * (v[i - 1] if i else 0.0) + e[i]
+        if rng.random() < 0.55:
+            v = v + rng.choice([-1, 1]) * rng.uniform(0.3, 4.0)       # DC offset, as raw recordings have
         return v
 
     rows = []
@@ -427,7 +445,8 @@ def gen_signal(rng, lead, n, cplx):
             v = v + rng.uniform(0.3, 1.5) * rows[rng.randrange(c)]     # correlated channels
         rows.append(v)
     a = np.array(rows)
-    a = a * rng.choice([1.0, 1.0, 1.0, 0.01, 37.5, 1e3])
+    e = rng.choice(AMP_EXP) if amp_exp is None else amp_exp
+    a = a * 2.0 ** e
     return a.reshape(tuple(lead) + (n,))
 
 
